@@ -240,7 +240,16 @@ func (a *Act) dynDispatch(res ssa.Value, instr ssa.Instruction, c *ssa.CallCommo
 	// solver-aided resolution of the callee: in the common case the value is provably one particular closure (the k-th
 	// call through a function value usually is the k-th closure created), or provably none of them
 	if len(names) > 0 {
+		// first guess: the closure created right after the one the previous call was resolved to (modifier lists are
+		// usually called in the order they were built), else the k-th closure for the k-th call
 		guess := names[g.dynCount%len(names)]
+		if g.dynLast != "" {
+			for i, n := range names {
+				if n == g.dynLast && i+1 < len(names) {
+					guess = names[i+1]
+				}
+			}
+		}
 		g.dynCount++
 		order := append([]string{guess}, names...)
 		tried := map[string]bool{}
@@ -251,6 +260,8 @@ func (a *Act) dynDispatch(res ssa.Value, instr ssa.Instruction, c *ssa.CallCommo
 			tried[n] = true
 			if g.provable(reach, fmt.Sprintf("(= %s %s)", recv, n)) {
 				g.note("call through a function value resolved to %s (solver-aided)", shortFn(g.closures[n].fn))
+				g.dynLast = n
+				g.dynUnresolved = 0
 				a.closureCall(res, instr, g.closures[n], args, st, reach)
 				return true
 			}
@@ -264,11 +275,16 @@ func (a *Act) dynDispatch(res ssa.Value, instr ssa.Instruction, c *ssa.CallCommo
 				}
 				if g.provable(reach, "(and "+strings.Join(neq, " ")+")") {
 					g.note("call through a function value resolved to none of the closures created by the call (solver-aided)")
+					g.dynUnresolved = 0
 					a.unknownFnCall(res, instr, c, recv, args, st, reach)
 					return true
 				}
 			}
 		}
+	}
+	g.dynUnresolved++
+	if g.dynUnresolved >= 2 {
+		g.dynGaveUp = true
 	}
 	if true {
 		// neither "it is this closure" nor "it is none of them" is provable: the call has unknown effects (sound; the
@@ -370,6 +386,17 @@ func (a *Act) staticCall(res ssa.Value, instr ssa.Instruction, fn *ssa.Function,
 	if a.ghostCall(res, instr, fn, args, st, reach) {
 		return
 	}
+	a.callSiteObligations(instr, fn, args, st, reach)
+	if a.top {
+		if a.lastCall == nil {
+			a.lastCall = map[string]*callRec{}
+		}
+		if r := a.lastCall[name]; r != nil && r.instr != instr {
+			r.ambiguous = true
+		} else {
+			a.lastCall[name] = &callRec{fn: fn, args: args, res: res, instr: instr, reach: reach}
+		}
+	}
 	if n, ok := g.forcedInline(fn); ok && !a.onStack(fn) && len(fn.Blocks) > 0 {
 		// "inlines" of the contract under verification: the callee's real body is executed in place
 		a.inlineN(res, instr, fn, args, nil, st, reach, n)
@@ -444,6 +471,50 @@ func (a *Act) staticCall(res ssa.Value, instr ssa.Instruction, fn *ssa.Function,
 		return
 	}
 	a.inline(res, instr, fn, args, nil, st, reach)
+}
+
+// callRec: the arguments and results of the call of a function made by the function under verification (for
+// callarg("F", i) / callresult("F", i) in its postconditions; only meaningful when there is one call site)
+type callRec struct {
+	fn        *ssa.Function
+	args      []string
+	res       ssa.Value
+	instr     ssa.Instruction
+	reach     string
+	ambiguous bool
+}
+
+// callSiteObligations: "callsite F assert e" clauses of the contract under verification, at this call of F: e over
+// arg0, arg1, ... (the actual arguments, receiver first) and the caller's own names, in the state before the call.
+func (a *Act) callSiteObligations(instr ssa.Instruction, fn *ssa.Function, args []string, st *State, reach string) {
+	g := a.g
+	if !a.top || a.ct == nil || len(a.ct.CallSites) == 0 || !g.eng.curModes.Post {
+		return
+	}
+	name := shortFn(fn)
+	for _, cs := range a.ct.CallSites {
+		if cs.Fn != name {
+			continue
+		}
+		if a.firedSites == nil {
+			a.firedSites = map[*CallSite]int{}
+		}
+		a.firedSites[cs]++
+		func() {
+			defer wrapClauseErr(cs.Cl)
+			e := a.newEnv(st, nil, nil)
+			for i, x := range args {
+				if i < len(fn.Params) {
+					e.bound[fmt.Sprintf("arg%d", i)] = tv{term: x, typ: fn.Params[i].Type()}
+				}
+			}
+			for j, c := range splitConj(cs.Cl.Expr) {
+				t := e.evalBool(c)
+				g.oblige("callsite", fmt.Sprintf("%s:%s", clauseLabel(cs.Cl, 0, j), a.srcDetail(instr)), reach, t, a.pos(instr.Pos()), "callsite "+cs.Fn+" assert "+cs.Cl.Text)
+				g.assumeIf(reach, t)
+			}
+		}()
+	}
 }
 
 func (g *Gen) forcedInline(fn *ssa.Function) (int, bool) {
@@ -739,9 +810,18 @@ func (a *Act) callByContractSeed(res ssa.Value, instr ssa.Instruction, fn *ssa.F
 			// caller's other facts; callers get the consequences stated in the other clauses)
 			continue
 		}
-		for _, c := range cs.evalClause(cl, st, cs.pre) {
-			g.assumeIf(reach, c)
-		}
+		func() {
+			defer func() {
+				if r := recover(); r != nil {
+					if _, ok := r.(ownProofOnly); !ok {
+						panic(r)
+					}
+				}
+			}()
+			for _, c := range cs.evalClause(cl, st, cs.pre) {
+				g.assumeIf(reach, c)
+			}
+		}()
 	}
 }
 
